@@ -168,19 +168,29 @@ pub struct BatchResult {
 
 pub fn run_batch(host: Host, blocks: &[RuleBlock], probe: &Probe, extra_args: &[&str]) -> (Rendered, BatchResult) {
     let r = render_batch(host, blocks);
+    let res = run_rendered(host.file(), &r, probe, extra_args, &[]);
+    (r, res)
+}
+
+/// Runs a scan over one rendered file and assigns the diagnostics to blocks by line extent.
+pub fn run_rendered(file: &str, r: &Rendered, probe: &Probe, extra_args: &[&str], env: &[(&str, &str)]) -> BatchResult {
     let sb = Sandbox::with_fake_git();
-    sb.write(host.file(), r.text.as_bytes());
+    sb.write(file, r.text.as_bytes());
     let mut args: Vec<&str> = extra_args.to_vec();
-    args.push(host.file());
+    args.push(file);
     probe.child();
-    let out = sb.bw(&BwRun::scan(&args));
-    let mut per_block: Vec<Vec<Diag>> = vec![vec![]; blocks.len()];
+    let mut run = BwRun::scan(&args);
+    for (k, v) in env {
+        run = run.env(k, v);
+    }
+    let out = sb.bw(&run);
+    let mut per_block: Vec<Vec<Diag>> = vec![vec![]; r.pos.len()];
     let mut stray = vec![];
     let mut parse_error = None;
     match parse_diags(&out.stderr) {
         Ok(ds) => {
             for d in ds {
-                if d.file != host.file() {
+                if d.file != file {
                     stray.push(d);
                     continue;
                 }
@@ -195,7 +205,7 @@ pub fn run_batch(host: Host, blocks: &[RuleBlock], probe: &Probe, extra_args: &[
         }
         Err(e) => parse_error = Some(e),
     }
-    (r, BatchResult { out, per_block, stray, parse_error })
+    BatchResult { out, per_block, stray, parse_error }
 }
 
 /// Compares expected vs observed diagnostics of one block as multisets.
